@@ -6,7 +6,6 @@
 package main
 
 import (
-	"bytes"
 	"crypto/ecdsa"
 	"crypto/ed25519"
 	"crypto/rsa"
@@ -55,17 +54,23 @@ type Case struct {
 
 type world struct {
 	party, attacker []*key
+	extra           []*key              // keys of did:ex:b
+	docs            map[string]*docDesc // the harness's own description of the served documents
+	shared          jose.SignatureVerifier // when set: ONE jwt.NewVerifier instance used for every "basic" case
+	sharedSingle    map[string]jose.SignatureVerifier
 	byRef           map[string]*key // "did:ex:a#ed" -> key
 	vdr             *vdrStub
 	fetch           func(d, f string) (*verifier.PublicKey, error)
 	semCalls, seed  int
 	semAll          bool
+	kidOverride     string // the kid of signed tokens, when it is not the signer's own method
 	kidSuffix       string // appended to the kid of signed tokens (a kid with a second '#': the resolver gets the part between)
 }
 
 const (
 	didA = "did:ex:a"
 	didM = "did:ex:m"
+	didB = "did:ex:b"
 )
 
 func newWorld() *world {
@@ -84,28 +89,16 @@ func newWorld() *world {
 		w.byRef[didM+"#"+k.name] = k
 	}
 
+	for i, n := range []string{"multi:FP256", "cap:FP384", "ka1:FP256", "ka2:FEd25519", "k10:FEd25519", "k1:FEd25519"} {
+		p := strings.Split(n, ":")
+		k := newBareKey(200+i, p[0], p[1])
+		w.extra = append(w.extra, k)
+		w.byRef[didB+"#"+k.name] = k
+	}
+
 	w.vdr = newVDR()
 
 	return w
-}
-
-// keyOfPub maps what the real resolver returned back to one of our keys.
-func (w *world) keyOfPub(pk *verifier.PublicKey) (*key, bool) {
-	for _, k := range append(append([]*key{}, w.party...), w.attacker...) {
-		if pk.JWK != nil {
-			if pk.JWK == k.jwk {
-				return k, true
-			}
-
-			continue
-		}
-
-		if bytes.Equal(pk.Value, k.raw) {
-			return k, false
-		}
-	}
-
-	return nil, false
 }
 
 func coqKey(k *key, jwkForm bool) string {
@@ -191,25 +184,22 @@ type observed struct {
 }
 
 // execute runs the case on the real implementation.
-func (w *world) execute(c *Case) (o observed, resolved *key, resolvedJWK bool) {
+func (w *world) execute(c *Case) (o observed) {
 	var v jose.SignatureVerifier
 
 	switch {
+	case c.Cfg == "basic" && w.shared != nil:
+		v = w.shared
 	case c.Cfg == "basic":
-		v = jwt.NewVerifier(jwt.KeyResolverFunc(func(d, f string) (*verifier.PublicKey, error) {
-			pk, err := w.fetch(d, f)
-			if err == nil {
-				resolved, resolvedJWK = w.keyOfPub(pk)
-			}
-
-			return pk, err
-		}))
+		v = jwt.NewVerifier(jwt.KeyResolverFunc(w.fetch))
+	case strings.HasPrefix(c.Cfg, "single:") && w.sharedSingle[c.Cfg] != nil:
+		v = w.sharedSingle[c.Cfg]
 	case strings.HasPrefix(c.Cfg, "single:"):
 		k := w.byRef[strings.TrimPrefix(c.Cfg, "single:")]
 		sv, err := jwt.GetVerifier(k.pubKey(true))
 		must(err)
 
-		v, resolved, resolvedJWK = sv, k, true
+		v = sv
 	default:
 		v = jwt.UnsecuredJWTVerifier()
 	}
@@ -259,10 +249,10 @@ func (w *world) execute(c *Case) (o observed, resolved *key, resolvedJWK bool) {
 	}
 
 	if err != nil {
-		return observed{Outcome: "reject", Stage: stageOf(err), Err: err.Error()}, resolved, resolvedJWK
+		return observed{Outcome: "reject", Stage: stageOf(err), Err: err.Error()}
 	}
 
-	return observed{Outcome: "accept", Payload: string(payload)}, resolved, resolvedJWK
+	return observed{Outcome: "accept", Payload: string(payload)}
 }
 
 // strictVerify is the oracle's own signature check (Go standard library only): is sig a valid signature under
@@ -309,22 +299,7 @@ func (w *world) run(kind string, c *Case, withCoq bool, tr *hx.Trace) {
 		c = &d
 	}
 
-	o, resolved, resolvedJWK := w.execute(c)
-
-	if c.Entry == "did" && o.Outcome == "accept" {
-		// VerifyJWT builds its resolver itself: ask the same resolver function for the key the kid names
-		if hb, err := b64.DecodeString(strings.Split(c.Tok, ".")[0]); err == nil {
-			var h jose.Headers
-			if gojson.Unmarshal(hb, &h) == nil {
-				kid, _ := h["kid"].(string)
-				if ps := strings.Split(kid, "#"); len(ps) >= 2 {
-					if pk, err := w.fetch(ps[0], ps[1]); err == nil {
-						resolved, resolvedJWK = w.keyOfPub(pk)
-					}
-				}
-			}
-		}
-	}
+	o := w.execute(c)
 	rec := &hx.Record{Kind: kind, Case: c, Observed: o, Oracle: "ok"}
 
 	parts := strings.Split(c.Tok, ".")
@@ -380,23 +355,46 @@ func (w *world) run(kind string, c *Case, withCoq bool, tr *hx.Trace) {
 			received = []byte(parts[0] + "." + parts[1])
 		}
 
+		// the keys the token may legitimately be verified with (the oracle's own reading of the documents)
+		var cands []*key
+
+		if strings.HasPrefix(c.Cfg, "single:") {
+			cands = []*key{w.byRef[strings.TrimPrefix(c.Cfg, "single:")]}
+		} else if kid, isStr := hdr["kid"].(string); isStr {
+			if ps := strings.Split(kid, "#"); len(ps) >= 2 {
+				for _, m := range w.candidates(ps[0], ps[1]) {
+					cands = append(cands, m.k)
+				}
+			}
+		}
+
+		famOK, recvOK, rebuiltOK := false, false, false
+
+		for _, k := range cands {
+			if algFam[alg] == k.fam {
+				famOK = true
+				recvOK = recvOK || strictVerify(alg, k, received, sig)
+				rebuiltOK = rebuiltOK || strictVerify(alg, k, rebuilt, sig)
+			}
+		}
+
 		switch {
 		case !hdrOK || alg == "none" || len(sig) == 0:
 			rec.Oracle, rec.Sig = "fail", "accept-unsigned"
 			rec.Detail = "a signature-checking verifier accepted a token without signature / alg none"
-		case resolved == nil:
-			rec.Oracle, rec.Sig = "fail", "accept-no-key"
-			rec.Detail = "accepted although the key id resolved to no key"
-		case algFam[alg] != resolved.fam:
+		case len(cands) == 0:
+			rec.Oracle, rec.Sig = "fail", "accept-no-signing-key"
+			rec.Detail = "accepted although the kid names no method of its DID document that is listed for anything but key agreement"
+		case !famOK:
 			rec.Oracle, rec.Sig = "fail", "accept-alg-key-mismatch"
-			rec.Detail = fmt.Sprintf("alg %s accepted with a %s key", alg, resolved.fam)
-		case !strictVerify(alg, resolved, received, sig):
-			if strictVerify(alg, resolved, rebuilt, sig) {
+			rec.Detail = fmt.Sprintf("alg %s accepted although no key the kid can resolve to is of its family", alg)
+		case !recvOK:
+			if rebuiltOK {
 				rec.Oracle, rec.Sig = "fail", "accept-noncanonical-payload"
 				rec.Detail = "accepted although the received payload segment is not what was signed (it only decodes to it)"
 			} else {
 				rec.Oracle, rec.Sig = "fail", "accept-invalid-signature"
-				rec.Detail = "accepted although the signature is not valid for the received header and payload under " + alg
+				rec.Detail = "accepted although the signature is not valid for the received header and payload under " + alg + " for any signing key of the kid's DID the kid names"
 			}
 		}
 	}
@@ -420,8 +418,6 @@ func (w *world) run(kind string, c *Case, withCoq bool, tr *hx.Trace) {
 	if withCoq {
 		rec.Coq = w.coqCase(c, o, hdr, hdrOK, payload)
 	}
-
-	_ = resolvedJWK
 
 	if rec.Oracle == "fail" && c.World == nil {
 		cc := *c
@@ -486,15 +482,27 @@ func (w *world) coqCase(c *Case, o observed, hdr jose.Headers, hdrOK bool, paylo
 		hv = fmt.Sprintf("(Some {| h_alg := %s; h_kid := %s; h_b64 := %s; h_typ := %s; h_cty := %s |})", f[0], f[1], f[2], f[3], f[4])
 	}
 
-	// the resolver's answer for this token's kid, obtained from the real resolver function
+	// the document the kid's DID resolves to, as the harness built it (NOT what the resolver answered)
 	keys := "[]"
 
 	if kid, isStr := hdr["kid"].(string); isStr {
 		if ps := strings.Split(kid, "#"); len(ps) >= 2 {
-			if pk, err := w.fetch(ps[0], ps[1]); err == nil {
-				if k, j := w.keyOfPub(pk); k != nil {
-					keys = fmt.Sprintf("[(%s, %s, %s)]", str(ps[0]), str(ps[1]), coqKey(k, j))
+			if dd := w.docs[ps[0]]; dd != nil {
+				if !w.deterministic(ps[0], ps[1]) {
+					return ""
 				}
+
+				var ms []string
+				for _, m := range dd.sorted() {
+					r := "RRaw"
+					if m.jwk {
+						r = "RJwk"
+					}
+
+					ms = append(ms, fmt.Sprintf("M %s %s %s %s %d", str(m.id), m.rel, m.k.fam, r, m.k.id))
+				}
+
+				keys = fmt.Sprintf("[(%s, [%s])]", str(ps[0]), strings.Join(ms, "; "))
 			}
 		}
 	}
@@ -521,7 +529,7 @@ func (w *world) coqCase(c *Case, o observed, hdr jose.Headers, hdrOK bool, paylo
 		return ""
 	}
 
-	return fmt.Sprintf("{| c_entry := %s; c_cfg := %s; c_det := %s; c_tok := %s; c_hdr := %s; c_keys := %s; c_sig0 := %s; c_sigv0 := %s; c_payobj := %s; c_obs := %s |}",
+	return fmt.Sprintf("{| c_entry := %s; c_cfg := %s; c_det := %s; c_tok := %s; c_hdr := %s; c_docs := %s; c_sig0 := %s; c_sigv0 := %s; c_payobj := %s; c_obs := %s |}",
 		entry, cfg, det, tokS, hv, keys, sigS, sigv, hx.CoqBool(perr == nil && payload != nil), obs)
 }
 
@@ -594,7 +602,12 @@ func (w *world) sign(ref string, jwkForm bool, hdrExtra [][2]string, claims stri
 		proc = algProc[alg]
 	}
 
-	members := [][2]string{{"alg", q(alg)}, {"kid", q(d + "#" + frag + w.kidSuffix)}}
+	kidStr := d + "#" + frag + w.kidSuffix
+	if w.kidOverride != "" {
+		kidStr = w.kidOverride
+	}
+
+	members := [][2]string{{"alg", q(alg)}, {"kid", q(kidStr)}}
 	members = append(members, hdrExtra...)
 
 	if rawPayload {
@@ -606,6 +619,10 @@ func (w *world) sign(ref string, jwkForm bool, hdrExtra [][2]string, claims stri
 	}
 
 	b := &baseTok{hdr: headerJSON(members, style), pay: claims, key: ref, proc: proc, cfgRef: d + "#" + frag}
+	if w.kidOverride != "" {
+		b.cfgRef = w.kidOverride
+	}
+
 	b.hseg = b64.EncodeToString([]byte(b.hdr))
 
 	switch {
@@ -958,8 +975,7 @@ func main() {
 		w = newWorld()
 	}
 
-	w.vdr.docs[didA] = docFor(didA, w.party)
-	w.vdr.docs[didM] = docFor(didM, w.attacker)
+	w.layout()
 	w.fetch = didsignjwt.NewVDRKeyResolver(w.vdr).PublicKeyFetcher()
 
 	if args.Replay != "" {
@@ -1087,6 +1103,99 @@ func main() {
 
 			w.semantic(r, b, c, tr)
 		}
+	}
+
+	// documents with methods under single relationships, several relationships, key agreement only (with signature
+	// capable keys), relative ids and fragments containing each other: every key of did:ex:b signs tokens naming
+	// every method id of the document (and ids of the other documents)
+	{
+		r := rng.Fork(13000)
+		kids := []string{didB + "#multi", didB + "#cap", didB + "#ka-1", didB + "#ka-2", didB + "#ka", didB + "#key-10", didB + "#key-1",
+			didB + "#key", didB + "#", didB + "#mul", didA + "#key-1", didM + "#key-1", "did:ex:none#key-1"}
+		n := 0
+
+		for _, k := range w.extra {
+			for _, kid := range kids {
+				w.kidOverride = kid
+				b := w.sign(didB+"#"+k.name, true, nil, claimsJSON(r, 1), r.Intn(6), false, false)
+				w.kidOverride = ""
+				w.run("docs", b.mk([]string{"did", "jwt", "jws"}[n%3], "basic", "doc-method:"+kid[strings.Index(kid, "#"):]), true, tr)
+				n++
+			}
+		}
+	}
+
+	// SEQUENCES through ONE verifier instance (verifiers are long-lived objects): victim, attacker and forged tokens
+	// of DIDs that share a fragment, in every order; the model is stateless, so any state a verifier keeps between
+	// tokens shows up as a disagreement on the 2nd, 3rd ... token
+	{
+		r := rng.Fork(14000)
+		mkTok := func(signer, kid, note string) *Case {
+			w.kidOverride = kid
+			b := w.sign(signer, true, nil, claimsJSON(r, 1), r.Intn(6), false, false)
+			w.kidOverride = ""
+
+			return b.mk("jwt", "basic", note)
+		}
+		pool := []*Case{
+			mkTok(didA+"#ed", didA+"#key-1", "seq-victim"),
+			mkTok(didM+"#ed25519", didM+"#key-1", "seq-attacker"),
+			mkTok(didM+"#ed25519", didA+"#key-1", "seq-forged"),
+			mkTok(didA+"#ed", didM+"#key-1", "seq-forged-reverse"),
+			mkTok(didB+"#k10", didB+"#key-1", "seq-substring"),
+			mkTok(didB+"#ka1", didB+"#ka-1", "seq-keyagreement"),
+			mkTok(didA+"#p256", didA+"#p256-j", "seq-other-alg"),
+		}
+		seqN := 0
+		runSeq := func(seq []int) {
+			entry := []string{"jwt", "jws", "jwt-ignore", "did"}[seqN%4]
+			seqN++
+
+			if entry != "did" {
+				w.shared = jwt.NewVerifier(jwt.KeyResolverFunc(w.fetch))
+			}
+
+			for pos, i := range seq {
+				c := *pool[i]
+				c.Entry = entry
+				c.Note = fmt.Sprintf("%s@%d", c.Note, pos)
+				w.run("sequence", &c, true, tr)
+			}
+
+			w.shared = nil
+		}
+
+		for i := range pool {
+			for j := range pool {
+				runSeq([]int{i, j})
+
+				for k := range pool {
+					if thorough || (i+2*j+3*k+int(args.Seed))%3 == 0 {
+						runSeq([]int{i, j, k})
+					}
+				}
+			}
+		}
+
+		// one GetVerifier instance per key, fed its own and foreign tokens alternately
+		w.sharedSingle = map[string]jose.SignatureVerifier{}
+
+		for _, k := range w.party {
+			cfg := "single:" + didA + "#" + k.name
+			sv, err := jwt.GetVerifier(k.pubKey(true))
+			must(err)
+
+			w.sharedSingle[cfg] = sv
+			own := w.sign(didA+"#"+k.name, true, nil, claimsJSON(r, 1), 0, false, false)
+			other := w.party[(k.id)%len(w.party)]
+			foreign := w.sign(didA+"#"+other.name, true, nil, claimsJSON(r, 1), 0, false, false)
+
+			for pos, b := range []*baseTok{foreign, own, foreign, own} {
+				w.run("sequence", b.mk([]string{"jws", "jwt"}[pos%2], cfg, fmt.Sprintf("seq-single@%d", pos)), true, tr)
+			}
+		}
+
+		w.sharedSingle = nil
 	}
 
 	// alg / key cross combinations
